@@ -513,6 +513,9 @@ var traceRoots = []traceRoot{
 	{"extension.HandleIdle", "extension", "HandleIdle"},
 	{"extension.HandleNoop", "extension", "HandleNoop"},
 	{"server.announceNewMessages", "server", "IMAPServer.announceNewMessages"},
+	{"selection.HandleUnselect", "selection", "HandleUnselect"},
+	{"selection.HandleSelect", "selection", "HandleSelect"},
+	{"message.HandleSearch", "message", "HandleSearch"},
 }
 
 // ---------- deadlines ----------
